@@ -80,8 +80,8 @@ def main():
         for d in os.listdir(os.path.join(VERIF, "build")):
             if d.endswith(tag): shutil.rmtree(os.path.join(VERIF, "build", d), ignore_errors=True)
     os.makedirs(outdir, exist_ok=True)
-    shutil.copy(patch, os.path.join(outdir, "patch.diff"))
-    shutil.copy(demo, os.path.join(outdir, "demo.rs"))
+    for src, dst in ((patch, os.path.join(outdir, "patch.diff")), (demo, os.path.join(outdir, "demo.rs"))):
+        if os.path.abspath(src) != os.path.abspath(dst): shutil.copy(src, dst)
     json.dump(meta, open(os.path.join(outdir, "result.json"), "w"), indent=1)
     print(json.dumps({k: meta[k] for k in meta if k != "ran"}, indent=1)[:3000])
 
